@@ -204,6 +204,52 @@ func (i *impl) exec(h *lp.H, op string) string {
 		return "noconn"
 	}
 	switch w[0] {
+	case "rt":
+		// n sequential call-and-wait round trips; the broker acknowledges and replies at once; nobody drains the shared reply queue
+		total := n(1)
+		i.b.Lock()
+		prev := i.b.Policy
+		i.b.Unlock()
+		pol := func(inc *broker.Inc, m message.Message) bool {
+			if c, ok := m.(*message.UpstreamCall); ok {
+				inc.Send(&message.UpstreamCallAck{CallID: c.CallID, ResultCode: message.ResultCodeSucceeded, ExtensionFields: &message.UpstreamCallAckExtensionFields{}})
+				inc.Send(&message.DownstreamCall{CallID: "r" + c.CallID, RequestCallID: c.CallID, SourceNodeID: "src", Name: c.Name, Type: c.Type, Payload: c.Payload, ExtensionFields: &message.DownstreamCallExtensionFields{}})
+				return true
+			}
+			return false
+		}
+		i.b.Lock()
+		i.b.Policy = pol
+		i.b.Unlock()
+		okN := 0
+		for j := 0; j < total; j++ {
+			ctx, cancel := context.WithTimeout(context.Background(), 2*time.Second)
+			r, err := i.conn.SendCallAndWaitReplayCall(ctx, &iscp.UpstreamCall{DestinationNodeID: "dst", Name: "rt", Type: "t", Payload: []byte{byte(j)}})
+			cancel()
+			if err != nil {
+				h.Violate(fmt.Sprintf("round trip %d of %d: the broker acknowledged and replied, the caller got: %v", j+1, total, err))
+				break
+			}
+			if len(r.Payload) != 1 || r.Payload[0] != byte(j) {
+				h.Violate(fmt.Sprintf("round trip %d returned the reply of another call", j+1))
+			}
+			okN++
+		}
+		i.b.Lock()
+		i.b.Policy = prev
+		i.b.Unlock()
+		popped := 0
+		for {
+			ctx, cancel := context.WithTimeout(context.Background(), 30*time.Millisecond)
+			_, err := i.conn.ReceiveReplyCall(ctx)
+			cancel()
+			if err != nil {
+				break
+			}
+			popped++
+		}
+		i.logPos = len(i.b.Log)
+		return fmt.Sprintf("ok %d inbox=%d", okN, popped)
 	case "call":
 		return i.startCall(h, n(1), n(2), len(w) > 3 && w[3] == "wait")
 	case "sync":
@@ -455,5 +501,14 @@ func main() {
 		if h.Distinct(fmt.Sprintf("%d/%s", m, sig)) && len(sig) > 6 {
 			h.Sample()
 		}
+	}
+	// volume: more call-and-wait round trips than the shared reply queue holds, while nobody calls ReceiveReplyCall
+	h.Case("volume")
+	if do("reset") == "ok" {
+		out := do("rt 1030")
+		if !strings.HasPrefix(out, "ok 1030 ") {
+			h.Violate("1030 sequential call-and-wait round trips, each acknowledged and replied to by the broker: " + out)
+		}
+		h.Distinct("volume")
 	}
 }
